@@ -9,14 +9,23 @@ THEOREMS = [
     'Ndn.C18.local_is_max', 'Ndn.C18.rejected_unchanged', 'Ndn.C18.local_monotone', 'Ndn.C18.run_monotone',
     'Ndn.C18.overclaim_ignored_entirely', 'Ndn.C18.callback_iff_raised',
     'Ndn.C18.publish_increments_and_emits_full', 'Ndn.C18.suppression_emit_iff', 'Ndn.C18.steady_timer_emits',
+    # byte-level half: the vector as the bytes of the name component (composition with the TLV codec, C08/C07)
+    'Ndn.C18.vector_roundtrip', 'Ndn.C18.stepBytes_spec', 'Ndn.C18.stepB_refines', 'Ndn.C18.run_monotone_bytes',
+    'Ndn.C18.local_is_max_bytes', 'Ndn.C18.callback_iff_raised_bytes', 'Ndn.C18.emits_are_local',
+    'Ndn.C18.publish_emits_decodable', 'Ndn.C18.vector_received', 'Ndn.C18.emitted_vector_is_received',
+    'Ndn.C18.encodeVector_fails_only_oversize', 'Ndn.C18.source_tables_pinned',
 ]
 PARTIAL = {}
 TRUSTED = [
     'C18: time is abstracted - the timer expiry is an event of the model; asyncio wait_for/Event semantics are exercised only by the correspondence (virtual-time loop)',
-    'C18: vectors enter the model after StateVecWrapper.parse (the TLV codec is property C08); a vector with repeated node ids denotes the dict built from its entries (last entry wins)',
+    'C18: a received vector enters the model as the bytes of the name component name[-2]; the model decodes them with the generic TLV decoder (Ndn.Codec.parse, the function the C07/C08 theorems are about) over the StateVecWrapper schema regenerated from the live class, and catches the classes of the regenerated `except` clause; the name-length test before it (len(name) == len(prefix) + 2) is an event of its own (undecodable); the component is one complete TLV element, as Name.decode delivers it (on other byte strings the error log of the handler, Name.to_str(name) evaluated inside the except clause, can itself raise ValueError)',
+    'C18: a vector with repeated node ids denotes the dict built from its entries (last entry wins); an entry whose name is empty is skipped like one without a name',
 ]
 RULE = ('histories of 1..14 events over 4 node ids: received vectors (newer/older/incomparable/unknown nodes/'
-        'over-claiming/duplicate ids/entries without NodeId or SeqNo/empty/undecodable bytes/wrong name length), '
+        'over-claiming/duplicate ids/entries without NodeId or SeqNo/empty/undecodable bytes/wrong name length; every vector '
+        'is handed to the model as the component bytes, and a separate stream mutates valid encodings: unknown critical / '
+        'non-critical elements, illegal integer widths, non-minimal Type/Length, truncation, swapped fields, empty or '
+        'mistyped names, other outer types, random bytes; always one complete TLV element), '
         'publications and timer expiries; non-trivial = the history contains at least one accepted vector that '
         'raises an entry or an emission decision taken in suppression; distinct = distinct event lists')
 
@@ -31,6 +40,11 @@ def _imports():
     return enc, svs_sync, StateVec, StateVecWrapper, StateVecEntry
 
 
+def extract(repo):
+    from props import c18_bytes
+    return c18_bytes.extract_text(repo)
+
+
 # ------------------------------------------------------------------------------------- cases
 def _vector(rng, seqs_hint):
     k = rng.choice([1, 1, 2, 2, 3, 4])
@@ -39,7 +53,9 @@ def _vector(rng, seqs_hint):
         r = rng.random()
         nid = rng.choice(NODES)
         base = seqs_hint.get(nid, 0)
-        seq = max(0, base + rng.choice([-2, -1, 0, 0, 1, 1, 2, 5]))
+        seq = min(2**64 - 1, max(0, base + rng.choice([-2, -1, 0, 0, 1, 1, 2, 5])))
+        if rng.random() < 0.04:
+            seq = rng.choice(BIG_SEQS)          # sequence numbers needing 5- and 9-byte integers
         if r < 0.05:
             es.append([None, seq])
         elif r < 0.10:
@@ -62,10 +78,46 @@ def _exhaustive(max_len):
             yield {'seq0': 1, 'events': [list(e) for e in evs]}
 
 
+BIG_SEQS = [2**32 - 1, 2**32, 2**32 + 1, 2**63, 2**64 - 2, 2**64 - 1]
+
+
+def _targeted():
+    """dimensions the random stream reaches rarely or never: the own node id repeated inside one vector (over-claiming in
+    the first / last / middle entry, with raising entries before and after), sequence numbers >= 2^32, stop/start cycles
+    (a restart must keep the vector, the state and a single timer), a vector or a publication arriving at the very instant
+    the timer is due, over-claiming vectors in steady state and inside a suppression period followed by the timer"""
+    me, a, b = NODES[0], NODES[1], NODES[2]
+    for seq0 in (0, 2):
+        over, ok = seq0 + 1, seq0
+        dups = [[[me, ok], [me, over]], [[me, over], [me, ok]], [[a, 4], [me, over], [b, 3], [me, ok]],
+                [[me, ok], [a, 4], [me, ok]], [[a, 4], [me, ok], [a, 2]], [[a, 2], [a, 4], [me, over]],
+                [[me, over], [a, 4]], [[a, 4], [me, over]]]
+        for v in dups:
+            yield {'seq0': seq0, 'events': [['r', v], ['t'], ['p'], ['r', [[a, 1]]], ['r', v], ['t']]}
+            yield {'seq0': seq0, 'events': [['r', [[a, 9], [b, 9]]], ['t'], ['r', [[a, 1]]], ['r', v], ['t']]}
+        # an over-claiming vector inside a suppression period must not count as heard
+        yield {'seq0': seq0, 'events': [['r', [[a, 9], [b, 9]]], ['t'], ['r', [[a, 1]]], ['r', [[a, 9], [b, 9], [me, over]]], ['t']]}
+        yield {'seq0': seq0, 'events': [['r', [[a, 9]]], ['t'], ['r', [[me, over], [a, 9]]], ['t'], ['r', [[a, 9], [me, ok]]], ['t']]}
+        for big in BIG_SEQS:
+            yield {'seq0': seq0, 'events': [['r', [[a, big]]], ['r', [[a, big - 1], [b, 1]]], ['t'], ['r', [[a, big]]], ['t']]}
+            yield {'seq0': seq0, 'events': [['r', [[a, 2**32 - 2]]], ['r', [[a, big]]], ['r', [[a, 5]]], ['t'], ['p']]}
+            yield {'seq0': seq0, 'events': [['r', [[me, big]]], ['t'], ['p'], ['t']]}
+        yield {'seq0': seq0, 'events': [['ss'], ['p'], ['t'], ['ss'], ['ss'], ['p'], ['r', [[a, 3]]], ['t']]}
+        yield {'seq0': seq0, 'events': [['r', [[a, 3]]], ['t'], ['r', [[a, 1]]], ['ss'], ['t'], ['p'], ['t']]}
+        yield {'seq0': seq0, 'events': [['r', [[a, 3]]], ['ss'], ['r', [[a, 1]]], ['r', [[a, 3]]], ['ss'], ['t'], ['t']]}
+        yield {'seq0': seq0, 'events': [['p'], ['ss'], ['r', [[me, seq0]]], ['t'], ['ss'], ['p']]}
+        for first in (['r', [[a, 3]]], ['r', [[a, 3]]], ['p']):
+            for at in (['r@', [[a, 1]]], ['r@', [[a, 3]]], ['r@', [[a, 5]]], ['r@', [[me, seq0 + 5]]], ['r@', []], ['p@']):
+                yield {'seq0': seq0, 'events': [first, ['t'], at, ['t'], ['p'], ['t']]}
+                yield {'seq0': seq0, 'events': [first, ['t'], ['r', [[a, 1]]], at, ['t'], ['r', [[b, 1]]], at, ['t']]}
+
+
 def cases(rng, tier):
+    yield from _targeted()
     if tier == 'thorough':
         # exhaustive small scope first (7 + 49 + 343 + 2401 + 16807 histories), then the random stream
         yield from _exhaustive(5)
+    yield from _byte_cases(rng, 150 if tier == 'quick' else 6000)
     n = 400 if tier == 'quick' else 12000
     for _ in range(n):
         seq0 = rng.choice([0, 0, 1, 3, 7])
@@ -78,14 +130,46 @@ def cases(rng, tier):
             elif r < 0.70:
                 evs.append(['p'])
                 hint['/n0'] = hint.get('/n0', 0) + 1
-            elif r < 0.90:
+            elif r < 0.86:
                 evs.append(['t'])
+            elif r < 0.88:
+                evs.append(['ss'])
+            elif r < 0.90:
+                evs.append(['r@', _vector(rng, hint)] if rng.random() < 0.7 else ['p@'])
+                if evs[-1][0] == 'p@':
+                    hint['/n0'] = hint.get('/n0', 0) + 1
             elif r < 0.93:
                 evs.append(['r', []])
             elif r < 0.97:
                 evs.append(['raw', bytes(rng.randrange(256) for _ in range(rng.randint(0, 8))).hex()])
+            elif r < 0.975:
+                from props import c18_bytes
+                b, _tag = c18_bytes.component(rng, _vector(rng, hint))
+                evs.append(['comp', b.hex(), _tag])
             else:
                 evs.append(['badlen'])
+        yield {'seq0': seq0, 'events': evs}
+
+
+def _byte_cases(rng, n):
+    """histories in which most received vectors are (mutated) component bytes"""
+    from props import c18_bytes
+    for _ in range(n):
+        seq0 = rng.choice([0, 1, 3])
+        hint = {'/n0': seq0}
+        evs = []
+        for _ in range(rng.randint(1, 8)):
+            r = rng.random()
+            if r < 0.7:
+                b, _tag = c18_bytes.component(rng, _vector(rng, hint))
+                evs.append(['comp', b.hex(), _tag])
+            elif r < 0.8:
+                evs.append(['r', _vector(rng, hint)])
+            elif r < 0.9:
+                evs.append(['p'])
+                hint['/n0'] = hint.get('/n0', 0) + 1
+            else:
+                evs.append(['t'])
         yield {'seq0': seq0, 'events': evs}
 
 
@@ -94,9 +178,11 @@ def shrink(case):
     for i in range(len(evs)):
         yield {'seq0': case['seq0'], 'events': evs[:i] + evs[i + 1:]}
     for i, e in enumerate(evs):
-        if e[0] == 'r' and len(e[1]) > 1:
+        if e[0] in ('r', 'r@') and len(e[1]) > 1:
             for j in range(len(e[1])):
-                yield {'seq0': case['seq0'], 'events': evs[:i] + [['r', e[1][:j] + e[1][j + 1:]]] + evs[i + 1:]}
+                yield {'seq0': case['seq0'], 'events': evs[:i] + [[e[0], e[1][:j] + e[1][j + 1:]]] + evs[i + 1:]}
+        if e[0] in ('r@', 'p@'):
+            yield {'seq0': case['seq0'], 'events': evs[:i] + [[e[0][0]] + e[1:]] + evs[i + 1:]}
     if case['seq0'] > 0:
         yield {'seq0': 0, 'events': evs}
 
@@ -143,14 +229,39 @@ def run_impl(case):
         base = enc.Name.normalize(BASE)
         self_id = enc.Name.to_bytes(NODES[0])
         trace = []
-        for ev in case['events']:
-            rec = {'ev': ev[0], 'state_before': inst.state.name, 'self_seq_before': inst.self_seq,
-                   'local_before': _canon_vec(inst.local_sv)}
+
+        def _begin(kind):
             missing.clear()
             app.sent.clear()
+            return {'ev': kind, 'state_before': inst.state.name, 'self_seq_before': inst.self_seq,
+                    'local_before': _canon_vec(inst.local_sv)}
+
+        def _finish(rec, exc):
+            rec['raised'] = exc
+            rec['missing'] = len(missing)
+            emitted = []
+            for nm in app.sent:
+                v = StateVecWrapper.parse(nm[-1]).val
+                emitted.append(sorted([bytes(enc.Name.to_bytes(e.node_id)).hex(), e.seq_no] for e in (v.entries if v else [])))
+            rec['emitted'] = emitted
+            rec['local'] = _canon_vec(inst.local_sv)
+            rec['state'] = inst.state.name
+            rec['self_seq'] = inst.self_seq
+            trace.append(rec)
+
+        for ev in case['events']:
+            # 'r@' / 'p@': the vector / publication arrives at the very instant the timer is due (clock moved without
+            # letting the timer task run; the handler is called directly, then the loop settles)
+            kind, exact = ev[0].rstrip('@'), ev[0].endswith('@')
+            rec = _begin(kind)
             exc = None
-            if ev[0] in ('r', 'raw', 'badlen'):
-                if ev[0] == 'r':
+            if exact:
+                rec['exact'] = True
+                loop._vt = max(inst.next_sync_timing, loop.time())
+            if kind in ('r', 'raw', 'badlen', 'comp'):
+                if kind == 'comp':
+                    comp = bytes.fromhex(ev[1])
+                elif kind == 'r':
                     pkt = StateVecWrapper()
                     pkt.val = StateVec()
                     pkt.val.entries = []
@@ -167,38 +278,44 @@ def run_impl(case):
                 name = base + [comp, enc.Component.from_bytes(b'\x00' * 32, 2)]
                 if ev[0] == 'badlen':
                     name = base + [comp]
-                # what the vector decodes to, by the library's own decoder (C08 is the codec property)
+                # the model gets the bytes of the component and decodes them itself; what the library's own decoder
+                # makes of them is kept as a cross-check of the model's decoder and for the oracle
+                from props import c18_bytes
                 dec = None
                 if ev[0] != 'badlen':
-                    try:
-                        v = StateVecWrapper.parse(comp).val
-                        dec = [] if v is None or not v.entries else [
-                            [bytes(enc.Name.to_bytes(e.node_id)).hex() if e.node_id is not None else None, e.seq_no]
-                            for e in v.entries]
-                    except (enc.DecodeError, IndexError):
-                        dec = None
-                    except Exception as e:       # noqa - the handler will raise the same
-                        dec = 'raises:' + type(e).__name__
+                    rec['comp'] = bytes(comp).hex()
+                    rec['lib_view'], dec = c18_bytes.lib_view(bytes(comp), StateVecWrapper, enc.Name)
                 rec['decoded'] = dec
                 try:
-                    loop.call_now(inst.sync_handler, name, None, None, None)
+                    if exact:
+                        inst.sync_handler(name, None, None, None)
+                    else:
+                        loop.call_now(inst.sync_handler, name, None, None, None)
                 except Exception as e:           # noqa
-                    exc = type(e).__name__
-            elif ev[0] == 'p':
-                loop.call_now(inst.new_data)
-            elif ev[0] == 't':
+                    exc = c18_bytes.exc_name(e)
+                if exact:
+                    # whether the timer still expired at this instant is read off its observable effects: a timer in
+                    # steady state emits, a timer in suppression returns to steady state
+                    _finish(rec, exc)
+                    rec = _begin('t')
+                    rec['exact'] = True
+                    loop.settle()
+                    if app.sent or (rec['state_before'] == 'SyncSuppression' and inst.state.name == 'SyncSteady'):
+                        _finish(rec, None)
+                    continue
+            elif kind == 'p':
+                if exact:
+                    inst.new_data()
+                    loop.settle()
+                else:
+                    loop.call_now(inst.new_data)
+            elif kind == 't':
                 loop.advance(max(inst.next_sync_timing, loop.time()) + 1e-3)
-            rec['raised'] = exc
-            rec['missing'] = len(missing)
-            emitted = []
-            for nm in app.sent:
-                v = StateVecWrapper.parse(nm[-1]).val
-                emitted.append(sorted([bytes(enc.Name.to_bytes(e.node_id)).hex(), e.seq_no] for e in (v.entries if v else [])))
-            rec['emitted'] = emitted
-            rec['local'] = _canon_vec(inst.local_sv)
-            rec['state'] = inst.state.name
-            rec['self_seq'] = inst.self_seq
-            trace.append(rec)
+            elif kind == 'ss':
+                # stop, let the timer task finish, start again (stop immediately followed by start is kept out: see report)
+                loop.call_now(inst.stop)
+                loop.call_now(inst.start, app)
+            _finish(rec, exc)
         inst.stop()
         return {'self_id': bytes(self_id).hex(), 'trace': trace, 'loop_errors': loop.errors}
     finally:
@@ -210,12 +327,14 @@ def run_impl(case):
 def model_line(case, impl):
     toks = []
     for rec in impl['trace']:
-        if rec['ev'] in ('r', 'raw', 'badlen'):
-            dec = rec['decoded']
-            if dec is None or isinstance(dec, str):
-                toks.append('u')
+        if rec['ev'] == 'ss':
+            continue            # a restart is not an event of the model: it must change nothing the model can see
+        if rec['ev'] in ('r', 'raw', 'badlen', 'comp'):
+            if rec.get('comp') is not None:
+                # the real encoded component; `=<lib>` lets the driver compare its own decoder with the library's
+                toks.append('b:' + (rec['comp'] or '-') + '=' + rec['lib_view'])
             else:
-                toks.append('r:' + '|'.join(f"{'~' if i is None else i}/{'~' if q is None else q}" for i, q in dec))
+                toks.append('u')
         else:
             toks.append(rec['ev'])
     return f"C18 {impl['self_id']} {case['seq0']} {';'.join(toks) if toks else '.'}"
@@ -231,21 +350,32 @@ def model_obs(answer, case, impl):
     assert answer.startswith('ok'), answer
     out = []
     for tok in answer.split()[1:]:
+        tok, _, em = tok.partition('#')
         outs, loc = tok.split('@')
         o = []
-        if outs != '-':
+        if outs.startswith('!'):
+            o = [['X', outs[1:]]]
+        elif outs != '-':
             for x in outs.split('+'):
                 o.append('M' if x == 'M' else ['E', _pvec(x[2:-1])])
-        out.append([o, _pvec(loc)])
+        # what the model's encoder put into the name component, read back by the library's decoder (entry order
+        # inside the component is not part of the property: compared as sorted vectors)
+        from props import c18_bytes
+        out.append([o, _pvec(loc), [c18_bytes.read_back(h) for h in em.split(',')] if em else []])
     return out
 
 
 def impl_obs(impl):
     out = []
     for rec in impl['trace']:
+        if rec['ev'] == 'ss':
+            continue
         o = ['M'] * rec['missing'] + [['E', v] for v in rec['emitted']]
+        if rec.get('raised') and rec.get('comp') is not None:
+            o = [['X', rec['raised']]] + o      # the handler raised: the model names the class that propagates
         # the model lists the callback after state update but emissions are separate events; order M then E
-        out.append([o, rec['local']])
+        # third item: the vectors carried by the emitted name components (the model's come from its own encoder)
+        out.append([o, rec['local'], rec['emitted']])
     return out
 
 
@@ -271,7 +401,7 @@ def oracle(case, impl):
         for i, q in before.items():
             if after.get(i, 0) < q:
                 return f'event {k}: local vector decreased at {i}'
-        if rec['ev'] in ('r', 'raw', 'badlen'):
+        if rec['ev'] in ('r', 'raw', 'badlen', 'comp'):
             dec = rec['decoded']
             accepted = isinstance(dec, list) and len(dec) > 0
             vec = {}
@@ -293,6 +423,8 @@ def oracle(case, impl):
             else:
                 if before != after:
                     return f'event {k}: a vector that is not accepted changed the local vector'
+                if rec['state'] != rec['state_before']:
+                    return f'event {k}: a vector that is ignored started or ended a suppression period'
                 raised = False
             if (rec['missing'] > 0) != raised:
                 return f'event {k}: missing-data callback fired={rec["missing"]} but vector raised an entry={raised}'
@@ -313,6 +445,13 @@ def oracle(case, impl):
                 return f'event {k}: local vector does not carry the new sequence number'
             if rec['emitted'] != [rec['local']]:
                 return f'event {k}: publish did not promptly emit exactly one sync Interest with the full vector'
+        elif rec['ev'] == 'ss':
+            if before != after or rec['self_seq'] != rec['self_seq_before']:
+                return f'event {k}: stopping and starting again changed the local vector'
+            if rec['missing']:
+                return f'event {k}: missing-data callback fired without a received vector'
+            if rec['state'] != rec['state_before']:
+                heard = None
         elif rec['ev'] == 't':
             if rec['state_before'] == 'SyncSuppression' and heard is not None:
                 merged = {}
@@ -349,8 +488,13 @@ def tags(case, impl):
             t.append('callback')
         if rec['ev'] == 't':
             t.append('timer-in-' + rec['state_before'] + ('-emit' if rec['emitted'] else '-silent'))
-        if rec['ev'] in ('r', 'raw') and rec.get('decoded') is None:
+        if rec['ev'] in ('r', 'raw', 'comp') and not isinstance(rec.get('decoded'), list):
             t.append('undecodable')
+        if rec['ev'] == 'comp':
+            t.append('comp-accepted' if rec['missing'] or rec['local'] != rec['local_before'] else 'comp-no-change')
+    for e in case['events']:
+        if e[0] == 'comp' and len(e) > 2:
+            t.append('mut:' + e[2])
     t.append('len:%d' % len(case['events']))
     return t
 
@@ -364,9 +508,15 @@ def finding_key(case, impl, why):
 LEVEL_TEXT = ('Lean 4 theorems over a hand-written model of SvsInst (sync_handler, aggregate, on_timer decision, new_data): '
               'entry-wise-max merge, monotonicity over all histories, over-claim ignored, callback iff raised, publish emits, '
               'suppression emission iff local newer than merge of heard vectors (invariant over every event history). '
+              'Byte-level half, by composition with the proved generic TLV codec (C08 round trip, C07 decoder totality): '
+              'the handler on the bytes of the name component is the model on the decoded entries for every byte string, '
+              'with the exact classes it catches (regenerated from the except clause) and those that propagate; what a node '
+              'emits after publishing decodes at the peer to exactly its local vector; feeding node A\'s emitted bytes to '
+              'node B raises B\'s entries to at least A\'s. '
               'The model is tied to the code on every run by differential execution of the compiled model against the real '
               'SvsInst on a virtual-time asyncio loop, plus the property oracle evaluated on the implementation.')
 LEVEL_NOTE = ('Proof is about the model; model=code is sampled (differential testing), not proved. Timer expiry is an abstract '
-              'event; decoding of vectors is delegated to the library codec (C08).')
+              'event. Received vectors reach the model as component bytes (decoded by the model\'s own generic decoder, compared '
+              'with the library\'s on every case); the components the model\'s encoder emits are read back by the library\'s decoder.')
 TECHNIQUE = 'Lean 4 proof (induction over event histories, ghost-state invariant) + model/implementation correspondence check'
 DESIGN_REF = 'DESIGN.md section 7, C18'
